@@ -193,3 +193,13 @@ Example C02_source_read_example :
   /\ ImpGen.imp_fastqrd_reader_read (GoSem.Scanner [] [bs "@r"; bs "ACG"] 0%Z false)
   = GoSem.Ret (GoSem.Scanner [] [] 0%Z true, (ImpGen.Imp_fastqrd_Fastq [] [] [], 3%Z)).
 Proof. vm_compute. split; reflexivity. Qed.
+
+(* reader.iter as translated from iter.go yields, to a consumer that never stops, the items
+   of the model's decode_toks: the same records in the same order, and a final error item
+   (with an error other than nil and io.EOF) exactly when the model has one. *)
+Theorem C02_iter_is_source : forall fuel cur (toks : list bytes) t, (length toks + 1 < fuel)%nat ->
+  exists s' out,
+    ImpGen.imp_fastqrd_reader_iter fuel (GoSem.Scanner cur toks (ImpProofsK.scan_code t) false) = GoSem.Ret (s', out)
+    /\ Forall2 ImpProofsK.fq_item_ok (Bio.Model.Fastq.decode_toks t toks) out.
+Proof. exact ImpProofsK.imp_fastq_iter. Qed.
+Print Assumptions C02_iter_is_source.
